@@ -9,7 +9,7 @@ RECURSIVE SeqOfSet(_)
 SeqOfSet(S) == IF S = {} THEN <<>> ELSE LET x == CHOOSE x \in S : TRUE IN <<x>> \o SeqOfSet(S \ {x})
 PathSeq(alpha, n) == LET q == SeqOfSet(Strs(alpha, n)) IN [i \in 1..Len(q) |-> A(q[i])]
 PatsO == {"/u/{id}", "/u/{id:\\d+}", "/u/{id:digit}", "/u/5", "/u/{id}/x", "/u/{id}/{p:\\d+}", "/u/{id}/{a}/xx", "/u/{uid}/x5",
-          "/u/{id}x", "/{p}", "/u/{id:digit}55", "/u/x/5", "/u/{p:even}77", "/u/{r:any}", "/u/{id:\\d+}/x", "/u/{id:\\d+}/5", "/u/{-v:\\d+|new}/x", "/{-w:\\d+}/x"}
+          "/u/{id}x", "/{p}", "/u/{id:digit}55", "/u/x/5", "/u/{p:even}77", "/u/{r:any}", "/u/{id:\\d+}/x", "/u/{id:\\d+}/5", "/u/{-v:\\d+|new}/x", "/{-id:\\d+}/x"}
 HOpsO == {H(p, G) : p \in PatsO}
 ROpsO == {}  COpsO == {}  UOpsO == {}
 CfgsO == {Cfg(FALSE)}
